@@ -55,6 +55,12 @@ type c17Pool struct {
 	// tokens of an extension profile whose decoder decodes a nested token
 	nestedCBOR [][]byte
 	nestedCOSE [][]byte
+	// tokens of an extension profile whose own claim has a slow codec
+	slowCBOR [][]byte
+	// tokens whose key 265 is not a text string (the OID form of a registered
+	// profile, an unregistered OID, an integer, an empty byte string, a map),
+	// and inputs that are not a map at all
+	oddProfCBOR [][]byte
 	// byte-string VALUES that several goroutines pass to the setters of their
 	// own private objects (a constant implementation id, a shared signer id):
 	// index 0..5 = impl id, boot seed, nonce, instance id, measurement, signer id
@@ -247,6 +253,16 @@ func buildPool(sp c17Spec) (*c17Pool, error) {
 			p.nestedCOSE = append(p.nestedCOSE, tok)
 		}
 	}
+	for i := 0; i < 2; i++ {
+		outer := baseValid(P2, i)
+		ps := append(bodyPairs(outer), icbor.P(icbor.U(265), icbor.Tstr(SlowP2Name)), icbor.P(icbor.I(-75960), icbor.U(uint64(1700000000+i))))
+		p.slowCBOR = append(p.slowCBOR, icbor.Encode(icbor.Map(ps...)))
+	}
+	for i, v := range []*icbor.Node{icbor.Bstr(oidContent(InhP2OID)), icbor.Bstr(oidContent("1.3.6.1.4.1.4128.100.3")), icbor.U(5), icbor.Bstr(nil), icbor.Map(), icbor.Arr(icbor.Tstr(P2Name)), icbor.Bool(true), icbor.F64(1.5)} {
+		ps := append(bodyPairs(baseValid(P2, i%3)), icbor.P(icbor.U(265), v))
+		p.oddProfCBOR = append(p.oddProfCBOR, icbor.Encode(icbor.Map(ps...)))
+	}
+	p.oddProfCBOR = append(p.oddProfCBOR, icbor.Encode(icbor.Arr(icbor.U(1), icbor.U(2))), icbor.Encode(icbor.U(7)), icbor.Encode(icbor.Tstr("claims")), []byte{0xf6})
 	for _, flag := range []uint64{1, 1, 5} {
 		for v := 0; v < 3; v++ {
 			nm := baseValid(P1, v)
@@ -295,7 +311,7 @@ type c17Op struct {
 }
 
 var c17Kinds = []string{"dec-nested", "dec-mutate", "ev-verify-all", "ev-verify-all", "claims-read-all", "dec-dup", "dec-dup", "dec-val-long", "dec-val-long", "reuse", "reuse", "ext-dec-cbor", "ext-dec-json", "ext-bad", "ext-bad", "synth", "synth", "new", "dec-cbor", "dec-json", "dec-cose", "validate", "getter", "getters", "enc-cbor", "enc-json", "venc-cbor", "venc-json",
-	"ev-json", "ev-verify", "ev-ids", "sign", "vsign", "setters", "setters-shared", "setters-shared", "serialize", "populate"}
+	"ev-json", "ev-verify", "ev-ids", "sign", "vsign", "setters", "setters-shared", "setters-shared", "serialize", "populate", "slow-codec", "dec-odd-profile", "dec-odd-profile"}
 
 func idx(n, k int) int { return ((k % n) + n) % n }
 
@@ -437,6 +453,37 @@ func runOp(p *c17Pool, o c17Op) string {
 			return fmt.Sprintf("%T without nested set", c)
 		}
 		return ObserveGetters(c) + "//" + ObserveGetters(n.InnerSet)
+	case "dec-odd-profile":
+		// the dispatcher's less-travelled branches: key 265 not a text
+		// string, input not a map
+		in := p.oddProfCBOR[idx(len(p.oddProfCBOR), o.A*3+o.B)]
+		c, err := psatoken.DecodeClaimsFromCBOR(in)
+		if err != nil {
+			return "err:" + err.Error()
+		}
+		return fmt.Sprintf("%T/%s", c, ObserveGetters(c))
+	case "slow-codec":
+		// decode a token of the slow-claim extension into a private object
+		// and encode that again: while the claim's own codec takes its time
+		// the call sits inside the library's struct walker, together with
+		// every other goroutine doing the same
+		c, err := psatoken.DecodeClaimsFromCBOR(p.slowCBOR[idx(len(p.slowCBOR), o.A)])
+		if err != nil {
+			return "err:" + err.Error()
+		}
+		sc, ok := c.(*SlowP2Claims)
+		if !ok || sc.Stamp == nil {
+			return fmt.Sprintf("%T without its own claim", c)
+		}
+		b, err := psatoken.EncodeClaimsToCBOR(c)
+		if err != nil {
+			return "enc-err:" + err.Error()
+		}
+		js, err := psatoken.EncodeClaimsToJSON(c)
+		if err != nil {
+			return "json-err:" + err.Error()
+		}
+		return fmt.Sprintf("%s/%d/%x/%s", ObserveGetters(c), int64(*sc.Stamp), b, js)
 	case "dec-mutate":
 		// decode a token (the same bytes other goroutines decode at the same
 		// moment), then change the PRIVATE result through its setters and
@@ -595,7 +642,7 @@ func raceLogSize() int64 {
 var progSerial int
 
 func TestC17_Concurrent(t *testing.T) {
-	st := NewStats("C17", "TestC17_Concurrent", "rapid draws a PROGRAM: a pool of shared objects (3..8 claims-sets of both profiles and both extension profiles, valid and invalid, built as literals / decoded / extension instances; decoded Evidence; CBOR, JSON and COSE byte buffers; keys of 4 algorithms) and 16..48 goroutine scripts of 10..60 operations each from {NewClaims, decode CBOR/JSON/COSE(+Verify), Validate, single getter, all getters, encode and validate-and-encode CBOR/JSON on SHARED claims, MarshalJSON / Verify / Get*ID on SHARED Evidence, Sign / ValidateAndSign on a private Evidence holding SHARED claims, setter sequences on private objects (also with byte-string VALUES that all goroutines share: a constant implementation id, signer id ...), embedding-aware serialise / populate, decoding of extension-profile tokens (CBOR and JSON dispatch), decodes that FAIL inside the embedding-aware helpers (duplicate key, text key, nested tags, truncation), and serialise+populate of a synthetic struct type that no codec has seen before this program}. The concurrent run comes first (cold per-type / per-process caches), the sequential reference on a fresh pool last. The scripts start together behind a barrier (GOMAXPROCS=16) in a binary built with -race. Oracle: (1) no race-detector report (the detector's log file is inspected after every program), (2) every operation's rendered result equals that of the same script run sequentially on a fresh copy of the pool (for signing: payload equals the encoding, token verifies independently and on the signing Evidence). Non-trivial = at least two goroutines used the same shared object; distinct = program hash. Sampling of schedules, not enumeration")
+	st := NewStats("C17", "TestC17_Concurrent", "rapid draws a PROGRAM: a pool of shared objects (3..8 claims-sets of both profiles and both extension profiles, valid and invalid, built as literals / decoded / extension instances; decoded Evidence; CBOR, JSON and COSE byte buffers; keys of 4 algorithms) and 16..48 goroutine scripts of 10..60 operations each from {NewClaims, decode CBOR/JSON/COSE(+Verify), Validate, single getter, all getters, encode and validate-and-encode CBOR/JSON on SHARED claims, MarshalJSON / Verify / Get*ID on SHARED Evidence, Sign / ValidateAndSign on a private Evidence holding SHARED claims, setter sequences on private objects (also with byte-string VALUES that all goroutines share: a constant implementation id, signer id ...), embedding-aware serialise / populate, decoding of extension-profile tokens (CBOR and JSON dispatch), decode + re-encode of tokens of an extension whose own claim has a slow codec (3 ms inside the library's struct walker: every script starts with one, so that all goroutines are inside the walkers at once), decodes of tokens whose key 265 is not a text string (OID form of a registered and of an unregistered profile, integer, empty byte string, map ...) and of inputs that are not a map, decodes that FAIL inside the embedding-aware helpers (duplicate key, text key, nested tags, truncation), and serialise+populate of a synthetic struct type that no codec has seen before this program}. The concurrent run comes first (cold per-type / per-process caches), the sequential reference on a fresh pool last. The scripts start together behind a barrier (GOMAXPROCS=16) in a binary built with -race. Oracle: (1) no race-detector report (the detector's log file is inspected after every program), (2) every operation's rendered result equals that of the same script run sequentially on a fresh copy of the pool (for signing: payload equals the encoding, token verifies independently and on the signing Evidence). Non-trivial = at least two goroutines used the same shared object; distinct = program hash. Sampling of schedules, not enumeration")
 	st.Require = []string{"shared-claims-contended", "shared-evidence-contended"}
 	defer st.Flush(t)
 	if !raceEnabled {
@@ -608,6 +655,12 @@ func TestC17_Concurrent(t *testing.T) {
 	}
 	withExtProfiles(func() {
 		if err := psatoken.RegisterProfile(nestingP2Profile{}); err != nil {
+			t.Fatalf("VERIF-INFRA: %v", err)
+		}
+		if err := psatoken.RegisterProfile(slowP2Profile{}); err != nil {
+			t.Fatalf("VERIF-INFRA: %v", err)
+		}
+		if err := psatoken.RegisterProfile(inheritProfile{P2}); err != nil {
 			t.Fatalf("VERIF-INFRA: %v", err)
 		}
 		rapid.Check(t, func(t *rapid.T) {
@@ -640,7 +693,7 @@ func TestC17_Concurrent(t *testing.T) {
 				// every goroutine STARTS by decoding the same token (right
 				// behind the barrier, so the decodes overlap) and changing
 				// its own result
-				scripts[g] = append([]c17Op{{"dec-nested", 0, g % 2}, {"dec-mutate", 0, g % 10}, {"dec-mutate", 0, (g + 3) % 10}}, scripts[g]...)
+				scripts[g] = append([]c17Op{{"slow-codec", g % 2, 0}, {"dec-odd-profile", g % 4, g % 3}, {"dec-nested", 0, g % 2}, {"dec-mutate", 0, g % 10}, {"dec-mutate", 0, (g + 3) % 10}}, scripts[g]...)
 			}
 			progSerial++
 			sp.Synth = progSerial*1000 + os.Getpid()%1000
